@@ -97,7 +97,23 @@ def r1(cx):
                          loc=body.loc(rt))
             continue
         # outcome switch on the Ok payload of the read
+        def cmp_zero(org, lab):
+            """`count == 0` / `count != 0` on the value returned by the read (also after `?`): True = zero edge, False = non-zero edge"""
+            if org['k'] != 'binop' or org['rv']['op'] not in ('Eq', 'Ne') or lab[0] != 'bool':
+                return None
+            ops = [org['rv']['a'], org['rv']['b']]
+            consts = [o for o in ops if 'c' in o and str(o['c']).split('_')[0] == '0']
+            others = [o for o in ops if 'cp' in o or 'mv' in o]
+            if len(consts) != 1 or len(others) != 1:
+                return None
+            src = Q.value_source(body, du, others[0])
+            if src is None or not Q.callee_is(src, READ):
+                return None
+            return lab[1] if org['rv']['op'] == 'Eq' else (not lab[1])
+
         def is_count_zero(org, lab):
+            if cmp_zero(org, lab) is True:
+                return True
             return lab == ('int', 0) and org['k'] == 'place' and \
                 any(isinstance(e, dict) and e.get('v') == 'Ok' for e in (org['pl'].get('p') or [])) and \
                 _from_read(body, du, org['pl'])
@@ -145,8 +161,8 @@ def r1(cx):
         pushes = [(b, t) for b, t in Q.find_calls(body, ['alloc::vec::Vec::<T, A>::push'])
                   if Q.operand_local(t['a'][1]) is not None and _base_local(du, Q.operand_local(t['a'][1])) == byte_local]
         nonzero = [(b, tgt) for b, tgt, lab, org in _switch_edges(
-            F, body, du, lambda org, lab: lab == ('else',) and org['k'] == 'place' and
-            any(isinstance(e, dict) and e.get('v') == 'Ok' for e in (org['pl'].get('p') or [])) and _from_read(body, du, org['pl']))]
+            F, body, du, lambda org, lab: cmp_zero(org, lab) is False or (lab == ('else',) and org['k'] == 'place' and
+            any(isinstance(e, dict) and e.get('v') == 'Ok' for e in (org['pl'].get('p') or [])) and _from_read(body, du, org['pl'])))]
         cx.require(nonzero, 'non-zero count edge not found')
         for b, tgt in nonzero:
             goals = set(body.return_blocks()) | {rb} | {x[0] for x in nl}
